@@ -57,8 +57,12 @@ RULE = ("four case families from one PRNG: (text) command texts from a line gram
         "trailing blanks/CR, quotes, $VAR, backticks, backslash-newline, shebangs and mixed space/tab indentation -> "
         "prepare_command, get_command_eof, get_wrapped_command, shlex.quote compared with the model byte for byte and the "
         "terminator checked against the command's lines; (bash) self-printing commands (#!/bin/cat, `cat \"$0\"` under bash/sh/"
-        "python3 shebangs or the default shell) wrapped by the real get_wrapped_command and executed by real bash: stdout "
-        "must be prepare_command(text)+'\\n' and equal the model's here-document reader; (script) generated nested "
+        "python3 shebangs or the default shell) wrapped by the real get_wrapped_command and executed by real bash (stdin=/dev/null, "
+        "own process group, 20 s limit; a hang is a violation, not an infrastructure error): stdout must be the harness's own "
+        "dedent(text).strip() under the default shell / own shebang + '\\n', and equal the model's prepare and here-document "
+        "reader; commands that really run (literal tabs in data and indentation, `<<-` here-documents with tab-indented "
+        "terminators, nested blocks, first line right after the quotes) whose exit code and stdout are compared with running the "
+        "dedented text directly; (script) generated nested "
         "inputs/outputs of File/IFile/ContentFile/Dir/Staging* leaves -> script(...) call expression (full command, input "
         "args, preprocessed outputs) and postprocess_script compared with the model, plus ordering/shape oracles; "
         "(e2e) script() run by a real Scheduler in a temp dir with local file and directory staging pairs, with and without "
@@ -845,14 +849,14 @@ def run(ctx):
     devnull = os.open(os.devnull, os.O_RDONLY)
     os.dup2(devnull, 0)
     try:
-        texts = list(CORPUS_TEXTS) + [gen_text(rng) for _ in range(ctx.n(1000, 12000))]
+        texts = list(CORPUS_TEXTS) + [gen_text(rng) for _ in range(ctx.n(800, 12000))]
         check_texts(ctx, texts)
         bash_cases = [("cat", "#!/bin/cat\n" + t) for t in CORPUS_TEXTS[:ctx.n(12, 40)]]
         bash_cases += list(BASH_CORPUS)
-        bash_cases += [gen_runnable(rng) for _ in range(ctx.n(40, 500))]
+        bash_cases += [gen_runnable(rng) for _ in range(ctx.n(30, 500))]
         check_bash(ctx, bash_cases, tmp)
-        check_scripts(ctx, [gen_script_case(rng) for _ in range(ctx.n(250, 2500))])
-        check_e2e(ctx, list(E2E_CORPUS) + [gen_e2e(rng) for _ in range(ctx.n(6, 80))], tmp)
+        check_scripts(ctx, [gen_script_case(rng) for _ in range(ctx.n(200, 2500))])
+        check_e2e(ctx, list(E2E_CORPUS) + [gen_e2e(rng) for _ in range(ctx.n(4, 80))], tmp)
     finally:
         os.dup2(saved_stdin, 0)
         os.close(saved_stdin)
